@@ -128,6 +128,30 @@ theorem zip_map_filterMap {α : Type} (g : α → Bool) : ∀ l : List α,
     simp only [List.map_cons, List.zip_cons_cons, List.filterMap_cons, List.filter_cons]
     cases h : g x <;> simp [zip_map_filterMap g l]
 
+/-- the bit vector of a built matcher: bit `i` is what set `i` answers under the trie contract -/
+theorem matchBits_eq (n : Nat) (log : List AddCall) (b : Built) (hsize : b.sets.size = n)
+    (hsets : ∀ i, i < n → b.sets[i]? = some (builtOf (setOf log i))) (name : Str) (rxHits : List Nat) :
+    b.matchBits name rxHits =
+      some ((List.range n).map fun i => (builtOf (setOf log i)).matchesSpec (normName name) rxHits) := by
+  unfold Built.matchBits
+  simp only [hsize]
+  apply option_mapM_of_forall
+  intro i hi
+  have hi' : i < n := by simpa using hi
+  rw [hsets i hi']
+  exact builtOf_matches log i _ rxHits
+
+theorem addSetInt_neg (m : Matcher) (idx : Int) (kind : Kind) (pats : List Pat) (h : idx < 0) :
+    m.addSetInt idx kind pats = m.addSet m.sets.size kind pats := by
+  unfold Matcher.addSetInt Matcher.addSet
+  simp [h]
+
+theorem addSetInt_nonneg (m : Matcher) (idx : Nat) (kind : Kind) (pats : List Pat) :
+    m.addSetInt (idx : Int) kind pats = m.addSet idx kind pats := by
+  unfold Matcher.addSetInt
+  have : ¬ ((idx : Int) < 0) := by omega
+  simp [this]
+
 theorem matchIndices_eq_spec (n : Nat) (log : List AddCall) (b : Built) (hsize : b.sets.size = n)
     (hsets : ∀ i, i < n → b.sets[i]? = some (builtOf (setOf log i))) (name : Str) (rxHits : List Nat) :
     b.matchIndices name rxHits = some (b.matchIndicesSpec name rxHits) := by
